@@ -20,11 +20,7 @@ known('F0', 'C05', ['C05.unrelated_in_window'], F0)
 F1 = 'in-handler await gives up after 1000 polls and returns the child still pending when a run loop had already dequeued it (and blocks on the global lock)'
 known('F1', 'C04', ['C04.child_incomplete_at_return', 'C04.descendant_incomplete', 'C04.results_not_terminal'], F1)
 F2 = 'same handler recursing >= 3 levels: the recursion guard raises inside process_event, the event never completes'
-known('F2', 'C03', ['C03.hang', 'C03.descendant_incomplete'], F2 + ', awaiting it hangs')
-known('F2', 'C01', ['C01.hang', 'C01.missing'], F2 + ' and its handlers never run', '')
-known('F2', 'C04', ['C04.raised', 'C04.hang', 'C04.child_incomplete_at_return', 'C04.descendant_incomplete'], F2 + '; the error escapes from the in-handler await', '')
-known('F2', 'C10', ['C10.event_incomplete', 'C10.result_left_nonterminal', 'C10.hang'], F2, '')
-known('F2', 'C15', ['C15.hang'], F2 + ' and stays pending in history, wait_until_idle never returns', '')
+known('F2', 'C01', ['C01.missing'], 'same handler recursing >= 3 levels: the recursion guard refuses to run the handler for the third-level event (recorded as an error result of that handler since 95060a3)', 'findings/F2_C01.json')
 F4 = 'an event accepted by several buses (forwarding / re-dispatch) signals completion after the first bus; later buses add results to the completed event'
 known('F4', 'C03', ['C03.descendant_incomplete', 'C03.incomplete_at_return', 'C03.results_not_terminal'], F4)
 known('F4', 'C08', ['C08.changed_after_complete'], F4, 'findings/F4_c08.json')
@@ -39,7 +35,6 @@ known('F5b', 'C15', ['C15.hang'], F5b + ' and stays started in history, wait_unt
 fixed('F9', 'C09', ['C09.event_bus'], '27bab07', 'event.event_bus returned the last bus of event_path, wrong for handlers that run after the event was forwarded')
 F11 = 'an in-flight (started) parent is evicted from a small history while its children outnumber max_history_size; upward completion cannot find it'
 known('F11', 'C13', ['C13.hang'], F11 + ' and awaiting it hangs')
-known('F2', 'C11', ['C11.await_raised', 'C11.event_incomplete', 'C11.C01_missing', 'C11.hang'], F2 + '; the guard error escapes from an in-handler await', '')
 for p in ('C01', 'C03', 'C04', 'C07', 'C10', 'C11', 'C14', 'C15', 'C17', 'C18'):
     cl = HANG(p) + ({'C10': ['C10.event_incomplete', 'C10.result_left_nonterminal'], 'C03': ['C03.descendant_incomplete'], 'C04': ['C04.child_incomplete_at_return', 'C04.descendant_incomplete'],
                      'C14': ['C14.parent_never_completes'], 'C11': ['C11.event_incomplete'], 'C17': ['C17.C01_hang', 'C17.event_incomplete']}.get(p, []))
@@ -52,7 +47,7 @@ known('F14', 'C02', ['C02.inversion'], 'a run loop holds a dequeued event while 
 F15 = 'on a parallel_handlers bus two sibling handlers that both await children process those subtrees concurrently'
 known('F15', 'C06', ['C06.overlap'], F15)
 known('F15', 'C02', ['C02.serial_overlap'], F15 + ' (also on a serial bus reached from both)', '')
-for _f, _w in (('F1', F1), ('F2', F2), ('F4', F4), ('F5b', F5b), ('F11', F11)):
+for _f, _w in (('F1', F1), ('F4', F4), ('F5b', F5b), ('F11', F11)):
     known(_f, 'C05', ['C05.unrelated_in_window'], _w + '; the await returns the child incomplete and other handlers run before the child completes', '')
 known('F15', 'C05', ['C05.unrelated_in_window'], F15 + ', so unrelated handlers start inside an await window', '')
 known('F15', 'C04', ['C04.child_incomplete_at_return', 'C04.descendant_incomplete'], F15 + '; one polling loop takes the child the other one is waiting for', '')
@@ -68,6 +63,9 @@ fixed('F19', 'C16', ['C16.task_survives_cancel', 'C16.cancelled_runloop_not_done
 fixed('F13', 'C20', ['C20.runtime_error', 'C20.probe_error'], '8ad1a87', '@retry semaphore contended in one event loop raised RuntimeError (bound to a different event loop) in every later loop')
 fixed('F22', 'C11', ['C11.accessor_raised', 'C11.accessor_raised_without_error', 'C11.accessor_wrong_exception'], '6eaa59a', 'result accessors crashed with RuntimeError(dictionary changed size during iteration) when a forwarded-to bus added results while they waited')
 fixed('F24', 'C11', ['C11.not_same_exception', 'C11.C01_missing', 'C11.accessor_wrong_exception'], 'ec9e966', 'a TimeoutError raised by the handler itself was treated as the event timeout: exception object replaced, child results cancelled')
+fixed('F2', 'C03', ['C03.hang', 'C03.descendant_incomplete'], '95060a3', 'recursion guard raised out of process_event: the event never completed and awaiting it hung', 'findings/F2.json')
+fixed('F2b', 'C04', ['C04.raised', 'C04.hang'], '95060a3', 'recursion guard error escaped from an in-handler await', 'findings/F2_C04.json')
+fixed('F2c', 'C15', ['C15.hang'], '95060a3', 'event refused by the recursion guard stayed pending in history: wait_until_idle never returned', 'findings/F2_C15.json')
 fixed('F17', 'C15', ['C15.not_idle_at_return'], '67ce4a2', 'wait_until_idle returned with a forwarded event still queued')
 fixed('F18', 'C09', ['C09.children_attribution'], 'f319433', 'child dispatched to two buses by one handler was listed twice in event_children')
 with open('/verif/KNOWN_FINDINGS.jsonl', 'w') as f:
